@@ -79,6 +79,9 @@ def cmd_tranche(a):
         if hasattr(mod, "drain_batch_stats"):
             mod.drain_batch_stats()
     t_warm = time.time() - t0
+    reach = None
+    if a.mode == "INTERP" and hasattr(sys, "monitoring") and not os.environ.get("VERIF_FILTER"):
+        reach = line_reach(mod, a.tier)
     t1 = time.time()
     if hasattr(mod, "run_tranche"):
         merged = mod.run_tranche(a.seed, a.tier, a.lo, a.hi, a.workers)
@@ -87,6 +90,8 @@ def cmd_tranche(a):
     merged["wall_run"] = time.time() - t1
     merged["wall_warm"] = t_warm
     merged["mode"] = a.mode
+    if reach is not None:
+        merged["coverage_extra"] = {"kernel_lines_reached": reach}
     # --- violations: classify, shrink, write replay files
     findings = core.load_known_findings()
     reports = []
@@ -125,6 +130,70 @@ def cmd_tranche(a):
     with open(a.out, "wb") as f:
         pickle.dump(merged, f)
     return 0
+
+
+def line_reach(mod, tier, nruns=150):
+    """INTERP only: which lines of the package's kernels does this property's workload
+    execute?  sys.monitoring LINE events on pyclifford/utils.py, stabilizer.py, circuit.py
+    over a fixed probe batch (seed string 'reach').  Reported, never an oracle."""
+    import core
+    import seams
+    mon = sys.monitoring
+    tool = 3
+    try:
+        mon.use_tool_id(tool, "verif-reach")
+    except ValueError:
+        return None
+    files = [os.path.join(seams.REPO, "pyclifford", f) for f in ("utils.py", "stabilizer.py", "circuit.py", "paulialg.py", "device.py")]
+    hit = {}
+
+    def on_line(code, line):
+        fn = code.co_filename
+        if fn in files:
+            hit.setdefault((fn, code.co_qualname), set()).add(line)
+            return None
+        return mon.DISABLE
+    mon.register_callback(tool, mon.events.LINE, on_line)
+    mon.set_events(tool, mon.events.LINE)
+    try:
+        for i in range(nruns):
+            rng = core.run_rng("reach", mod.PROP_ID, i)
+            cfg = mod.gen_config(rng, tier)
+            try:
+                core.execute(mod.RunClass, cfg, rng=rng, max_steps=min(cfg["steps"], 60))
+            except Exception:
+                pass
+    finally:
+        mon.set_events(tool, 0)
+        mon.register_callback(tool, mon.events.LINE, None)
+        mon.free_tool_id(tool)
+    if hasattr(mod, "drain_batch_stats"):
+        mod.drain_batch_stats()
+    # executable lines per function from the code objects of the modules
+    import importlib
+    import types
+    out = {}
+    for modname in ("utils", "stabilizer", "circuit", "paulialg", "device"):
+        m = importlib.import_module("pyclifford." + modname)
+        fn = m.__file__
+
+        def walk(co):
+            yield co
+            for c in co.co_consts:
+                if isinstance(c, types.CodeType):
+                    yield from walk(c)
+        try:
+            top = compile(open(fn).read(), fn, "exec")
+        except Exception:
+            continue
+        for co in walk(top):
+            if co.co_name == "<module>":
+                continue
+            lines = set(l for _, _, l in co.co_lines() if l is not None and l != co.co_firstlineno)
+            got = hit.get((fn, co.co_qualname), set())
+            if got:
+                out["%s.%s" % (modname, co.co_qualname)] = [len(got & lines), len(lines)]
+    return dict(sorted(out.items()))
 
 
 # -------------------------------------------------------------------- replay
